@@ -22,6 +22,7 @@ CONSTANTS MaxBlocks,      \* 1..3
           EndSyms,        \* BOOLEAN subset: may blocks carry at_end symbols
           AnnModes,       \* subset of {"none","blk","bi"}
           WithProxyDel,   \* BOOLEAN: generate retarget_to_proxy deletions
+          CfiLayouts,     \* subset of {"none","proc_all","proc_each","proc_rs"}
           Emit            \* BOOLEAN: print cases
 
 VARIABLES shape, reqs
@@ -66,7 +67,31 @@ FnOf(layout, i, nb) ==
     [] layout = "tail" -> IF i = 1 THEN "" ELSE "b2"
 
 \* annotation spec: <<block, disp>> or <<0,0>>
-MkBlock(i, nb, tpl, tgtIdx, layout, endSym, annMode, annAt) ==
+\* CFI layouts (renderer format: <<disp, <<directive...>>>>, directive = <<name, operands...>>)
+FirstBoundary(units) == UnitSize(units[1])
+TotalSize(units) == LET f[i \in 0..Len(units)] == IF i = 0 THEN 0 ELSE f[i - 1] + UnitSize(units[i]) IN f[Len(units)]
+Start7 == << <<"cfi_startproc">>, <<"cfi_def_cfa", 7, 8>> >>
+CfiOf(cl, i, nb, units, isData) ==
+  IF isData \/ cl = "none" THEN <<>>
+  ELSE LET n == TotalSize(units)
+           o1 == FirstBoundary(units)
+       IN CASE cl = "proc_each" -> << <<0, Start7>>, <<n, << <<"cfi_endproc">> >> >> >>
+            [] cl = "proc_all" ->
+                 (IF i = 1 THEN << <<0, Start7>> >> \o (IF o1 < n THEN << <<o1, << <<"cfi_def_cfa_offset", 16>> >> >> >> ELSE <<>>) ELSE <<>>)
+                 \o (IF i = nb THEN << <<n, << <<"cfi_endproc">> >> >> >> ELSE <<>>)
+            [] cl = "proc_rs" ->
+                 (IF i = 1 THEN << <<0, Start7>> >> \o (IF o1 < n THEN << <<o1, << <<"cfi_remember_state">>, <<"cfi_def_cfa_offset", 16>> >> >> >> ELSE <<>>) ELSE <<>>)
+                 \o (IF i = 2 /\ nb >= 2 THEN << <<0, << <<"cfi_restore_state">> >> >> >> ELSE <<>>)
+                 \o (IF i = nb THEN << <<n, (IF nb = 1 THEN << <<"cfi_restore_state">> >> ELSE <<>>) \o << <<"cfi_endproc">> >> >> >> ELSE <<>>)
+\* merge entries with the same displacement (a one-unit block has o1 = n etc.)
+MergeCfi(cs) ==
+  LET ds == {cs[i][1] : i \in DOMAIN cs}
+      sorted == SortSeq(SetToSeq(ds), LAMBDA a, b : a < b)
+  IN  [k \in 1..Len(sorted) |->
+         <<sorted[k], FlattenSeq([i \in 1..Len(SelectSeq(cs, LAMBDA c : c[1] = sorted[k])) |->
+                                     SelectSeq(cs, LAMBDA c : c[1] = sorted[k])[i][2]])>>]
+
+MkBlock(i, nb, tpl, tgtIdx, layout, endSym, annMode, annAt, cl) ==
   LET units == TemplateUnits(tpl, i, BName(tgtIdx))
       f == IF IsData(tpl) THEN "" ELSE FnOf(layout, i, nb)
   IN  [kind |-> IF IsData(tpl) THEN "data" ELSE "code",
@@ -76,11 +101,12 @@ MkBlock(i, nb, tpl, tgtIdx, layout, endSym, annMode, annAt) ==
        fn |-> f,
        entry |-> (f # "" /\ f = BName(i)),
        ann |-> IF annMode # "none" /\ annAt[1] = i
-               THEN << <<annAt[2], "comments", annMode, "c">> >> ELSE <<>>]
+               THEN << <<annAt[2], "comments", annMode, "c">> >> ELSE <<>>,
+       cfi |-> MergeCfi(CfiOf(cl, i, nb, units, IsData(tpl)))]
 
 ShapeParams ==
   {p \in [nb : 1..MaxBlocks, tpl : [1..MaxBlocks -> Templates], tgt : 1..MaxBlocks,
-          layout : FnLayouts, es : SUBSET (1..MaxBlocks), am : AnnModes,
+          layout : FnLayouts, es : SUBSET (1..MaxBlocks), am : AnnModes, cl : CfiLayouts,
           annAt : (1..MaxBlocks) \X (0..3)] :
      /\ \A i \in (p.nb + 1)..MaxBlocks : p.tpl[i] = CHOOSE x \in Templates : TRUE
      /\ p.tgt <= p.nb
@@ -90,12 +116,14 @@ ShapeParams ==
      /\ (p.am = "none" => p.annAt = <<1, 0>>)
      /\ (p.am # "none" => p.annAt[1] <= p.nb)
      /\ (p.layout \in {"split", "tail"} => p.nb >= 2 /\ ~IsData(p.tpl[2]))
-     /\ (p.layout \in {"one", "split"} => ~IsData(p.tpl[1]))}
+     /\ (p.layout \in {"one", "split"} => ~IsData(p.tpl[1]))
+     /\ (p.cl # "none" => ~IsData(p.tpl[1]) /\ ~IsData(p.tpl[p.nb]))
+     /\ (p.cl = "proc_rs" /\ p.nb >= 2 => ~IsData(p.tpl[2]))}
 
 MkShape(p) ==
   [sections |-> <<[name |-> ".text",
                    blocks |-> [i \in 1..p.nb |->
-                       MkBlock(i, p.nb, p.tpl[i], p.tgt, p.layout, i \in p.es, p.am, p.annAt)]]>>]
+                       MkBlock(i, p.nb, p.tpl[i], p.tgt, p.layout, i \in p.es, p.am, p.annAt, p.cl)]]>>]
 
 (***************************************************************************)
 (* The abstract pre-state of a shape, in the projection's format, so that  *)
@@ -131,6 +159,16 @@ SxOf(units) ==
          [o |-> offs[hasx[q] - 1] + rel(units[hasx[q]]),
           d |-> <<"C", TargetOf(units[hasx[q]]), add(units[hasx[q]])>>, ok |-> TRUE]]
 
+\* renderer directive <<"cfi_name", operands...>> -> projection record
+AbsDir(d) ==
+  LET nm == d[1]
+      op == CASE nm = "cfi_startproc" -> "startproc" [] nm = "cfi_endproc" -> "endproc"
+              [] nm = "cfi_def_cfa" -> "def_cfa" [] nm = "cfi_def_cfa_offset" -> "def_cfa_offset"
+              [] nm = "cfi_adjust_cfa_offset" -> "adjust_cfa_offset"
+              [] nm = "cfi_remember_state" -> "remember_state" [] nm = "cfi_restore_state" -> "restore_state"
+              [] OTHER -> nm
+  IN  [op |-> op, args |-> SubSeq(d, 2, Len(d)), sym |-> "", big |-> FALSE]
+
 AbsState(sh) ==
   LET bs == sh.sections[1].blocks
       sizes == [i \in 1..Len(bs) |-> UnitOffsets(bs[i].units)[Len(bs[i].units)]]
@@ -143,7 +181,10 @@ AbsState(sh) ==
                  sx |-> SxOf(bs[i].units),
                  ann |-> LET a == SelectSeq(bs[i].ann, LAMBDA x : x[3] = "blk")
                          IN  [q \in 1..Len(a) |-> [d |-> a[q][1], t |-> a[q][2], v |-> a[q][4]]],
-                 cfi |-> <<>>, al |-> 0, inside |-> TRUE]
+                 cfi |-> [q \in 1..Len(bs[i].cfi) |->
+                            [d |-> bs[i].cfi[q][1],
+                             ds |-> [z \in 1..Len(bs[i].cfi[q][2]) |-> AbsDir(bs[i].cfi[q][2][z])]]],
+                 al |-> 0, inside |-> TRUE]
       iann == FlattenSeq([i \in 1..Len(bs) |->
                  LET a == SelectSeq(bs[i].ann, LAMBDA x : x[3] = "bi")
                  IN  [q \in 1..Len(a) |-> [p |-> pos[i - 1] + a[q][1], t |-> a[q][2], v |-> a[q][4], ok |-> TRUE]]])
@@ -157,7 +198,7 @@ AbsState(sh) ==
 \* abstract patch contents (sizes as the real assembler produces them for the
 \* catalogue; checked against the real assembler by the trace clause
 \* "Catalogue" of the harness)
-AbsPatch(kind, id) ==
+AbsPatch0(kind, id) ==
   LET u(o, n, k, tg) == [o |-> o, n |-> n, k |-> k, tg |-> tg, tgb |-> tg,
                          by |-> [x \in 1..n |-> <<"patch", id, o + x>>]]
   IN CASE kind = "plain2" -> [units |-> <<u(0, 2, "op", "")>>, labels |-> <<>>, sx |-> <<>>, sxs |-> <<>>]
@@ -179,6 +220,18 @@ AbsPatch(kind, id) ==
                                           [o |-> 1, n |-> 1, k |-> "data", tg |-> "", tgb |-> "", by |-> <<<<"patch", id, 2>>>>]>>,
                               labels |-> <<>>, sx |-> <<>>, sxs |-> <<>>]
        [] OTHER -> [units |-> <<>>, labels |-> <<>>, sx |-> <<>>, sxs |-> <<>>]
+
+PatchCfiOf(kind) ==
+  LET dd(op, args) == [op |-> op, args |-> args, sym |-> "", big |-> FALSE]
+  IN CASE kind = "cfi" -> <<[o |-> 0, ds |-> <<dd("adjust_cfa_offset", <<8>>)>>], [o |-> 2, ds |-> <<dd("adjust_cfa_offset", <<0 - 8>>)>>]>>
+       [] kind = "cfistate" -> <<[o |-> 0, ds |-> <<dd("remember_state", <<>>), dd("def_cfa_offset", <<32>>)>>],
+                                 [o |-> 2, ds |-> <<dd("restore_state", <<>>)>>]>>
+       [] OTHER -> <<>>
+AbsPatch(kind, id) ==
+  LET p == AbsPatch0(IF kind \in {"cfi", "cfistate"} THEN "plain2" ELSE kind, id)
+  IN  [units |-> p.units, labels |-> p.labels, sx |-> p.sx, sxs |-> p.sxs,
+       cfi |-> PatchCfiOf(kind),
+       n |-> Sum([j \in 1..Len(p.units) |-> p.units[j].n])]
 
 ShapeBoundaries(blk) ==
   LET f == UnitOffsets(blk.units)
@@ -206,7 +259,7 @@ Candidates(sh) ==
           \cup
           {[op |-> "rep", blk |-> i, off |-> o[1], len |-> o[2] - o[1], proxy |-> FALSE, pk |-> k] :
               o \in {x \in B \X B : x[1] < x[2] /\ (code \/ x[2] - x[1] <= 2)},
-              k \in (IF code THEN PatchKinds \cap {"plain2", "ret", "loop"} ELSE PatchKinds \cap {"bytes"})}
+              k \in (IF code THEN PatchKinds \cap {"plain2", "ret", "loop", "cfi"} ELSE PatchKinds \cap {"bytes"})}
         : i \in DOMAIN bs}
 
 \* canonical (address, then registration) order key, to generate each batch once
